@@ -17,7 +17,7 @@ DONE = {
   note="Bounded to 3 documents and <= 60 steps; 'reopen' of an in-memory store hands the same Store to a new actor.",
   technique=PBT + ": history vs. capability state-machine model"),
  "C13": dict(level="exploration",
-  text="Histories (entries arriving in any timestamp order, deletions, reopen, document removal and re-creation) are checked after every step: reported heads = per-author maxima of the entries held, has_news_for_us = number of reported authors that are unknown or strictly newer. Generated head sets (up to 12 authors, and 100..320 authors so that the list prefix of the encoding grows to two bytes; authors sharing timestamps; limits also placed exactly at, one below and one above the encoded size of the k newest heads) are round-tripped without limit and, under generated limits, checked for size, subset, newest-that-fit and maximality with an independent size computation.",
+  text="Histories (entries arriving in any timestamp order, deletions, reopen, document removal and re-creation) are checked after every step: reported heads = per-author maxima of the entries held, has_news_for_us = number of reported authors that are unknown or strictly newer. Generated head sets (up to 12 authors, and 100..320 authors so that the list prefix of the encoding grows to two bytes; authors sharing timestamps; limits also placed exactly at, one below and one above the encoded size of the k newest heads) are round-tripped without limit and, under generated limits, checked for size, subset, newest-that-fit and maximality with an independent size computation. A third family reconciles two generated replicas and compares each side's reported heads_received (the engine's sync report) with the per-author maxima of the entries it was sent according to the transcript, and lets a third replica judge that report.",
   note="Limits start at 1 byte; any key at the head timestamp is accepted as head key.",
   technique=PBT + ": invariant over histories + round-trip / optimality oracle for the heads encoding"),
  "C15": dict(level="exploration",
